@@ -304,8 +304,11 @@ func TestVerif_C03_h3cut(t *testing.T) {
 		}
 		class := ""
 		cutAt := func() int {
-			if r.Intn(3) == 0 {
+			switch r.Intn(4) {
+			case 0:
 				return 0 // right after HEADERS
+			case 1:
+				return len(body) - 1 // exactly one byte short of the whole body
 			}
 			return r.Intn(len(body))
 		}
@@ -344,7 +347,7 @@ func TestVerif_C03_h3cut(t *testing.T) {
 				sc.name, sc.ending, sc.complete = "complete", "fin", true
 			}
 		case 9:
-			sc.name, sc.declared, sc.extra, sc.complete = "overlong", len(body), 1+r.Intn(20), false
+			sc.name, sc.declared, sc.extra, sc.complete = "overlong", len(body), verifh.Pick(r, []int{1, 1, 1 + r.Intn(20), 2 + r.Intn(19)}), false
 			switch overSeq % 4 {
 			case 1:
 				sc.name, sc.late = "overlong-late-frame", true
